@@ -8,10 +8,15 @@ Tie: harness/fake_lazrs is installed as `lazrs` (this process only), which makes
 (ocaml/c14/driver.ml) instantiates the backend with the same on-disk format, so whole compressed files are compared byte for byte.
 Correspondence: decisions over destinations x do_compress x backends x extensions; the 256 format ids; VLR-list histories
 (write / open / touch / user edits); bytes of chunked and one-shot compressed writes; seekable and non-seekable reads; point-source
-cursor histories; append sessions.
-Search (implementation only): LAZ vs LAS of the same data through every route of the property."""
+cursor histories; append sessions; selective reads (the stand-in backend is made to HONOUR the decompression selection it is
+handed for formats 6-10, as lazrs does: what is not selected comes back as zeros) against Model/LazSelect.v; the values of the Flag
+class DecompressionSelection; compressed files written with encoding_errors / non-ASCII header strings.
+Search (implementation only): LAZ vs LAS of the same data through every route of the property, every optional parameter of the
+readers (decompression_selection in every form) and of the writers / appenders (encoding_errors, closefd, laz_backend forms)."""
+import inspect
 import io
 import os
+import random
 import shutil
 import struct
 import tempfile
@@ -35,6 +40,10 @@ ASSUMPTIONS = [
     "the path suffix is taken from os.path.splitext / pathlib.Path.suffix (library code), its lower-casing is ASCII in the model",
     "VLR lists handed to the writer hold no record with the LasZip ids that is not a LasZipVlr object (what the reader produces)",
     "x -> x*scale+offset is monotone in binary64 for the positive scales used (hypothesis ap_ok of the theorems)",
+    "a backend honours the decompression selection it is handed as lazrs does: for point formats 6-10 a layer that was not asked for "
+    "comes back as zeros (x, y, return counts and scanner channel always come back), formats 0-5 ignore the selection; the layer of "
+    "every dimension is the LASzip point-14 layout (layer_table of coq/Model/LazSelect.v, byte ranges of backend_keep_mask in "
+    "harness/props/c14.py, which wraps harness/fake_lazrs for this process only); the constants SELECTIVE_DECOMPRESS_* are those of lazrs",
 ]
 KNOWN_EMPTY_NS = "empty-laz-evlrs-nonseekable"
 CS_CHOICES = (1, 3, 5, 8)
@@ -254,6 +263,19 @@ def read_summary(las):
 
 def diff_keys(a, b):
     return [k for k in a if a[k] != b.get(k)]
+
+
+def show_diff(a, b, keys):
+    """the differing entries of two read summaries, byte strings by the place of their first difference"""
+    out = {}
+    for k in keys[:3]:
+        x, y = a.get(k), b.get(k)
+        if isinstance(x, (bytes, bytearray)) and isinstance(y, (bytes, bytearray)):
+            j = next((i for i, (p, q) in enumerate(zip(x, y)) if p != q), min(len(x), len(y)))
+            out[k] = f"{len(x)} vs {len(y)} bytes, first difference at byte {j}: {x[j:j + 8].hex()} vs {y[j:j + 8].hex()}"
+        else:
+            out[k] = (str(x)[:60], str(y)[:60])
+    return out
 
 
 # ---------------------------------------------------------------------------------
@@ -643,6 +665,572 @@ def gen_append(rng, d):
 
 
 # ---------------------------------------------------------------------------------
+# the backend honours the decompression selection: harness/fake_lazrs validates the selection and then decompresses
+# everything; lazrs (and laszip) decompress, for the layered point formats 6-10, only the layers they are asked for and
+# leave the rest zero.  This layer (installed for this process only, on top of the shared stand-in) does the same, from
+# the byte layout of a point-14 record in the LAS 1.4 specification.  Formats 0-5 ignore the selection.
+# ---------------------------------------------------------------------------------
+SEL_LOG = []          # the (backend side) selection value every decompressor was constructed with, in order
+_P14 = [(8, 12, "Z"), (12, 14, "INTENSITY"), (16, 17, "CLASSIFICATION"), (17, 18, "USER_DATA"), (18, 20, "SCAN_ANGLE"),
+        (20, 22, "POINT_SOURCE_ID"), (22, 30, "GPS_TIME")]
+_P14_TAIL = {6: [], 7: [(30, 36, "RGB")], 8: [(30, 36, "RGB"), (36, 38, "NIR")], 9: [(30, 59, "WAVEPACKET")],
+             10: [(30, 36, "RGB"), (36, 38, "NIR"), (38, 67, "WAVEPACKET")]}
+LAZRS_NAMES = ["Z", "CLASSIFICATION", "FLAGS", "INTENSITY", "SCAN_ANGLE", "USER_DATA", "POINT_SOURCE_ID", "GPS_TIME", "RGB", "NIR",
+               "WAVEPACKET", "ALL_EXTRA_BYTES"]
+
+
+def backend_keep_mask(fmt, item_size, value):
+    """per byte of a record: the bits a backend asked for `value` (its own constants) decompresses; None = everything"""
+    if fmt < 6 or fmt > 10:
+        return None
+
+    def on(name):
+        return bool(value & getattr(fake_lazrs, "SELECTIVE_DECOMPRESS_" + name))
+    m = np.full(item_size, 0xFF, np.uint8)
+    for a, b, name in _P14 + _P14_TAIL[fmt]:
+        if not on(name):
+            m[a:b] = 0
+    if not on("FLAGS"):
+        m[15] = 0x30          # the scanner channel travels with x, y and the return counts
+    if not on("ALL_EXTRA_BYTES"):
+        m[fake_lazrs.POINT_SIZES[fmt]:] = 0
+    return None if int(m.min()) == 0xFF else m
+
+
+def _apply_keep(mask, dest):
+    if mask is None:
+        return
+    a = np.frombuffer(fake_lazrs._writable_view(dest), dtype=np.uint8)
+    if len(a):
+        v = a.reshape(-1, len(mask))
+        np.bitwise_and(v, mask, out=v)
+
+
+def honour_selection():
+    if getattr(fake_lazrs, "_c14_honours_selection", False):
+        return
+
+    def wrap(base):
+        class Honouring(base):
+            def __init__(self, source, record_data, selection=None):
+                super().__init__(source, record_data, selection)
+                v = fake_lazrs.SELECTIVE_DECOMPRESS_ALL if selection is None else int(selection.value)
+                SEL_LOG.append(v)
+                self._c14_keep = backend_keep_mask(self._vlr._point_format_id, self._vlr.item_size(), v)
+
+            def decompress_many(self, dest):
+                super().decompress_many(dest)
+                _apply_keep(self._c14_keep, dest)
+        Honouring.__name__, Honouring.__qualname__ = base.__name__, base.__qualname__
+        return Honouring
+    fake_lazrs.LasZipDecompressor = wrap(fake_lazrs.LasZipDecompressor)
+    fake_lazrs.ParLasZipDecompressor = wrap(fake_lazrs.ParLasZipDecompressor)
+    plain = fake_lazrs.decompress_points_with_chunk_table
+
+    def decompress_points_with_chunk_table(compressed_points_data, laszip_vlr_record_data, decompressed_points, chunk_table,
+                                           selection=None):
+        plain(compressed_points_data, laszip_vlr_record_data, decompressed_points, chunk_table, selection)
+        vlr = fake_lazrs._vlr_of(laszip_vlr_record_data)
+        v = fake_lazrs.SELECTIVE_DECOMPRESS_ALL if selection is None else int(selection.value)
+        _apply_keep(backend_keep_mask(vlr._point_format_id, vlr.item_size(), v), decompressed_points)
+    fake_lazrs.decompress_points_with_chunk_table = decompress_points_with_chunk_table
+    fake_lazrs._c14_honours_selection = True
+
+
+honour_selection()
+
+# what a selection means, by DIMENSION NAME (the oracle's side: no byte offsets)
+SEL_DIMS = {"Z": ["Z"], "CLASSIFICATION": ["classification"], "INTENSITY": ["intensity"], "SCAN_ANGLE": ["scan_angle"],
+            "USER_DATA": ["user_data"], "POINT_SOURCE_ID": ["point_source_id"], "GPS_TIME": ["gps_time"],
+            "RGB": ["red", "green", "blue"], "NIR": ["nir"],
+            "WAVEPACKET": ["wavepacket_index", "wavepacket_offset", "wavepacket_size", "return_point_wave_location", "x_t", "y_t", "z_t"]}
+
+
+def DS():
+    import laspy
+    return laspy.DecompressionSelection
+
+
+def member_bits():
+    """name -> value of every member of the Flag class (aliases included), read from the class itself"""
+    return {n: int(m) for n, m in DS().__members__.items()}
+
+
+def full_selection():
+    v = 0
+    for x in member_bits().values():
+        v |= x
+    return v
+
+
+def expected_selected(points, value):
+    """the records of the UNCOMPRESSED file as a read of the compressed file with the selection `value` (laspy's
+    constants) has to return them: the dimensions of every member that is not set are zero, for formats 6-10"""
+    pf = points.point_format
+    arr = np.ascontiguousarray(points.array).copy()
+    if pf.id < 6 or not len(arr):
+        return arr.tobytes()
+    names = list(arr.dtype.names)
+    nextra = len(list(pf.extra_dimensions))
+    std, extra = names[:len(names) - nextra], names[len(names) - nextra:]
+    bits = member_bits()
+    for name, dims in SEL_DIMS.items():
+        if not value & bits[name]:
+            for dname in dims:
+                if dname in std:
+                    arr[dname] = 0
+    if not value & bits["FLAGS"]:
+        arr["classification_flags"] &= 0x30
+    if not value & bits["ALL_EXTRA_BYTES"]:
+        for dname in extra:
+            arr[dname] = 0
+    return arr.tobytes()
+
+
+def expected_lazrs_value(value):
+    """what the backend has to be handed for the selection `value`: the constant of the same NAME for every member set"""
+    v = 0
+    for name, bit in member_bits().items():
+        if value & bit:
+            v |= getattr(fake_lazrs, "SELECTIVE_DECOMPRESS_" + name)
+    return v
+
+
+# extra dimensions of the selective data sets; the names include standard dimensions of OTHER formats (an extra dimension
+# "nir" of a format-6 file is extra bytes: it follows ALL_EXTRA_BYTES, not NIR)
+CLASH_NAMES = {6: ["nir", "red", "wavepacket_index"], 7: ["nir", "x_t"], 8: ["wavepacket_size", "z_t"], 9: ["red", "nir"], 10: [],
+               0: ["gps_time", "nir"], 1: ["red"], 2: ["gps_time"], 3: ["nir"], 4: ["red"], 5: ["nir"]}
+SEL_ROUTES = ("read", "open-read", "open-chunks", "open-seek", "LasReader", "open-read_points")
+
+
+def gen_sel_data(rng, thorough=False):
+    fmt = rng.choice([6, 6, 7, 8, 9, 10, 6, 7, 8, 9, 10, rng.randrange(0, 6)])
+    cs = rng.choice(CS_CHOICES)
+    types = []
+    for _ in range(rng.choice([0, 1, 1, 2, 3])):
+        types.append(rng.choice(["u1", "u2", "i4", "f4", "f8", "u8", "3u1", "2i2", "3f8", "5u1"]))
+    names = []
+    for j, _ in enumerate(types):
+        names.append(rng.choice(CLASH_NAMES[fmt]) if CLASH_NAMES[fmt] and rng.random() < 0.3 else f"e{j}")
+    names = [nm if names.index(nm) == j else f"{nm}{j}" for j, nm in enumerate(names)]
+    n = rng.choice([1, 2, cs, cs + 1, 2 * cs + 1, 3 * cs + 2])
+    version = "1.4" if fmt >= 6 or rng.random() < 0.5 else rng.choice([v for v in ("1.2", "1.3") if fmt in lasio.COMPAT[v]] or ["1.4"])
+    return {"case": "selection", "chunk_size": cs, "version": version, "format": fmt, "extra_types": types, "extra_names": names,
+            "points": n, "pattern": rng.choice(["random", "random", "ones"]), "data_seed": rng.randrange(1 << 30)}
+
+
+def build_sel_data(dd):
+    """(header, points, LAS bytes, LAZ bytes) of a selective data set description"""
+    import laspy
+    fake_lazrs.CHUNK_SIZE = int(dd["chunk_size"])
+    h = laspy.LasHeader(version=dd["version"], point_format=int(dd["format"]))
+    used = []
+    for nm, t in zip(dd["extra_names"], dd["extra_types"]):
+        try:
+            h.add_extra_dim(laspy.ExtraBytesParams(nm, t))
+            used.append(nm)
+        except Exception:  # noqa - a name laspy refuses for this format: a neutral one instead
+            h.add_extra_dim(laspy.ExtraBytesParams("x" + nm, t))
+            used.append("x" + nm)
+    pts = lasio.rand_points(random.Random(int(dd["data_seed"])), h, int(dd["points"]), pattern=dd["pattern"])
+    d = {"h": h, "pts": pts, "evl": [], "cuts": [(0, len(pts))], "backend": ("serial", B().Lazrs, "S")}
+    return h, pts, write_session(d, False, False), write_session(d, True, False, backend=B().Lazrs)
+
+
+def selection_forms(rng, thorough=False):
+    """(label, class of the form, object passed - NOTHING = parameter omitted, value the form MEANS).  The meaning is
+    computed from the member table, never through all(): an all() that lacks a member makes the passed object differ from
+    what the form means."""
+    ds, bits, full = DS(), member_bits(), full_selection()
+    base = bits["XY_RETURNS_CHANNEL"]
+    forms = [("default", "default", NOTHING, full), ("None", "default", None, full), ("all()", "all", ds.all(), full),
+             ("base()", "base", ds.base(), base),
+             ("all().skip_all_extra_bytes()", "all-but-one", ds.all().skip_all_extra_bytes(), full & ~bits["ALL_EXTRA_BYTES"]),
+             ("base().decompress_all_extra_bytes()", "base-plus-one", ds.base().decompress_all_extra_bytes(), base | bits["ALL_EXTRA_BYTES"])]
+    names = list(bits)
+    for nm in (names if thorough else rng.sample(names, 2)):
+        forms.append((f"all().skip_{nm.lower()}()", "all-but-one", getattr(ds.all(), "skip_" + nm.lower())(), full & ~bits[nm]))
+    for nm in (names if thorough else rng.sample(names, 2)):
+        forms.append((f"base().decompress_{nm.lower()}()", "base-plus-one", getattr(ds.base(), "decompress_" + nm.lower())(), base | bits[nm]))
+    for _ in range(4 if thorough else 1):
+        pick = rng.sample(names, rng.randrange(1, len(names)))
+        obj, v = ds.base(), base
+        for nm in pick:
+            obj = obj | ds[nm]
+            v |= bits[nm]
+        forms.append(("|".join(["base()"] + pick), "hand-made", obj, v))
+    v = rng.randrange(0, full + 1)
+    forms.append((f"DecompressionSelection({v})", "hand-made", ds(v), v))
+    # every member OR-ed by hand: what all() is documented to be
+    obj = ds(0)
+    for nm in names:
+        obj = obj | ds[nm]
+    forms.append(("every member OR-ed", "all", obj, full))
+    return forms
+
+
+class _Nothing:
+    def __repr__(self):
+        return "<omitted>"
+
+
+NOTHING = _Nothing()
+
+
+def read_route(raw, route, selobj, seekable, backend, cs, n, pos=None):
+    """the records of a file (file order) read through one route with the selection object passed (NOTHING = omitted)"""
+    import laspy
+    src = io.BytesIO(raw) if seekable else NonSeekable(raw)
+    kwargs = dict(kw(backend))
+    if selobj is not NOTHING:
+        kwargs["decompression_selection"] = selobj
+    if route == "read":
+        return lasio.rec_bytes(laspy.read(src, closefd=False, **kwargs).points)
+    if route == "LasReader":
+        r = laspy.LasReader(src, closefd=False, **kwargs)
+        return lasio.rec_bytes(r.read().points)
+    with laspy.open(src, closefd=False, **kwargs) as r:
+        if route == "open-read":
+            return lasio.rec_bytes(r.read().points)
+        if route == "open-chunks":
+            return b"".join(lasio.rec_bytes(c) for c in r.chunk_iterator(max(1, (pos or 0) % (cs + 2) + 1)))
+        if route == "open-read_points":
+            k = max(1, (pos or 0) % (n + 1))
+            return lasio.rec_bytes(r.read_points(k)) + lasio.rec_bytes(r.read_points(n))
+        i = (pos or 0) % max(n, 1)                      # open-seek: the tail first, then the head
+        r.seek(i)
+        tail = lasio.rec_bytes(r.read_points(n))
+        r.seek(0)
+        return lasio.rec_bytes(r.read_points(i)) + tail
+
+
+def routes_for(rng, seekable, thorough):
+    rs = [r for r in SEL_ROUTES if seekable or r != "open-seek"]
+    return rs if thorough else ["read"] + rng.sample(rs[1:], 1)
+
+
+_SELD = None
+
+
+def sel_datasets(ctx):
+    """selective data sets with everything the correspondence and the search need: per data set the cases
+    (form, route, source kind, backend) and what the implementation returned for each"""
+    global _SELD
+    if _SELD is not None:
+        return _SELD
+    import laspy
+    rng = ctx.rng
+    _SELD = []
+    for _ in range(ctx.n(36, 400)):
+        dd = gen_sel_data(rng, ctx.thorough())
+        try:
+            h, pts, las_raw, laz = build_sel_data(dd)
+        except Exception as ex:  # noqa
+            _SELD.append({"dd": dd, "error": f"{type(ex).__name__}: {ex}", "cases": []})
+            continue
+        dd = dict(dd, extra_names=[d.name for d in h.point_format.extra_dimensions])
+        ent = {"dd": dd, "h": h, "pts": pts, "las": las_raw, "laz": laz, "cases": []}
+        for label, cls, obj, means in selection_forms(rng, ctx.thorough()):
+            seekable = rng.random() < 0.75
+            bname, bk, btok = rng.choice([b for b in backend_choices() if seekable or "S" in b[2]])
+            for route in routes_for(rng, seekable, ctx.thorough()):
+                pos = rng.randrange(0, 1000)
+                c = {"form": label, "form_class": cls, "obj": obj, "means": means, "route": route, "seekable": seekable,
+                     "backend": bname, "bk": bk, "btok": btok, "pos": pos}
+                del SEL_LOG[:]
+                try:
+                    c["got"] = read_route(laz, route, obj, seekable, bk, dd["chunk_size"], dd["points"], pos)
+                except Exception as ex:  # noqa
+                    c["got"] = ex
+                c["handed"] = list(SEL_LOG)
+                try:
+                    c["plain"] = read_route(las_raw, route, obj, seekable, None, dd["chunk_size"], dd["points"], pos)
+                except Exception as ex:  # noqa
+                    c["plain"] = ex
+                ent["cases"].append(c)
+        _SELD.append(ent)
+    return _SELD
+
+
+def sel_case_input(dd, c):
+    return {**dd, "selection": c["form"], "selection_value_passed": None if c["obj"] in (None, NOTHING) else int(c["obj"]),
+            "selection_means": c["means"], "route": c["route"], "seekable_source": c["seekable"], "backend": c["backend"], "pos": c["pos"]}
+
+
+def flag_class_problems():
+    """the Flag class itself, swept: all() is the OR of every member; the defaults of the entry points are that value;
+    skip_ / decompress_ / is_set_ of every member; to_lazrs() maps every member to the backend constant of the same name"""
+    import laspy
+    ds, bits, full = DS(), member_bits(), full_selection()
+    out = []
+    if int(ds.all()) != full:
+        out.append(("DecompressionSelection.all() is not the OR of every member", {"members": bits},
+                    f"all() = {int(ds.all()):#x}, the OR of the members = {full:#x}; not in all(): "
+                    f"{[n for n, b in bits.items() if not int(ds.all()) & b]}"))
+    if int(ds.base()) != bits["XY_RETURNS_CHANNEL"] or int(ds.xy_returns_channel()) != bits["XY_RETURNS_CHANNEL"]:
+        out.append(("DecompressionSelection.base() is not XY_RETURNS_CHANNEL", {"members": bits}, f"base() = {int(ds.base()):#x}"))
+    for nm, fn in (("laspy.open", laspy.open), ("laspy.read", laspy.read), ("LasReader", laspy.LasReader.__init__)):
+        p = inspect.signature(fn).parameters.get("decompression_selection")
+        if p is None or p.default is inspect.Parameter.empty or int(p.default) != full:
+            out.append(("default decompression selection of an entry point is not every field", {"entry_point": nm, "members": bits},
+                        f"default = {None if p is None else p.default!r}, every member = {full:#x}"))
+    for nm, b in bits.items():
+        low = nm.lower()
+        try:
+            sk, de = getattr(ds(full), "skip_" + low)(), getattr(ds(bits['XY_RETURNS_CHANNEL']), "decompress_" + low)()
+            ok = (int(sk) == full & ~b and int(de) == bits["XY_RETURNS_CHANNEL"] | b and getattr(ds(full), "is_set_" + low)() is True
+                  and getattr(sk, "is_set_" + low)() is False and ds(full).is_set(ds[nm]) and not sk.is_set(ds[nm]))
+            why = f"skip -> {int(sk):#x}, decompress -> {int(de):#x}"
+        except Exception as ex:  # noqa
+            ok, why = False, f"{type(ex).__name__}: {ex}"
+        if not ok:
+            out.append(("skip_/decompress_/is_set_ method of a selection member", {"member": nm, "value": b}, why))
+        want = getattr(fake_lazrs, "SELECTIVE_DECOMPRESS_" + nm, None)
+        try:
+            got = int(ds(b).to_lazrs().value)
+        except Exception as ex:  # noqa
+            got = f"{type(ex).__name__}: {ex}"
+        if got != want:
+            out.append(("to_lazrs() of a selection member", {"member": nm, "value": b}, f"{got} instead of SELECTIVE_DECOMPRESS_{nm} = {want}"))
+    try:
+        got = int(ds.all().to_lazrs().value)
+    except Exception as ex:  # noqa
+        got = f"{type(ex).__name__}: {ex}"
+    want = 0
+    for nm in LAZRS_NAMES:
+        want |= getattr(fake_lazrs, "SELECTIVE_DECOMPRESS_" + nm)
+    if got != want:
+        out.append(("all().to_lazrs() does not select every layer of the backend", {"members": bits},
+                    f"{got if not isinstance(got, int) else hex(got)} instead of {want:#x}; layers left out: "
+                    f"{[nm for nm in LAZRS_NAMES if isinstance(got, int) and not got & getattr(fake_lazrs, 'SELECTIVE_DECOMPRESS_' + nm)]}"))
+    return out
+
+
+# ---------------------------------------------------------------------------------
+# every optional parameter of the writing entry points, compressed against uncompressed destination of the same data:
+# encoding_errors with header strings / VLR / EVLR descriptions that are not ASCII (as str and as bytes), closefd,
+# the forms of laz_backend, through laspy.open(mode="w"), LasWriter, LasData.write and laspy.open(mode="a")
+# ---------------------------------------------------------------------------------
+NONASCII_TEXT = ["é", "Zürich", "naïve café", "日本", "€uro", "xé" * 10, "ß" * 32,
+                 "a" * 31 + "é", "é" + "a" * 40, "plain ascii"]
+ENC_ERRORS = ["strict", "ignore", "replace", "ignore", "replace", "backslashreplace", "xmlcharrefreplace"]
+
+
+def gen_param_case(rng, thorough=False):
+    version, fmt = rng.choice(lasio.ALL_PAIRS)
+    # (an appender meets non-ASCII text as BYTES: the strings of a file some other software wrote)
+    route = rng.choice(["open", "open", "writer", "writer", "lasdata", "append", "append"])
+    places = ["system_identifier", "generating_software", "vlr"] + (["evlr"] if version == "1.4" else [])
+    strings = {}
+    if rng.random() < 0.85:
+        for pl in rng.sample(places, rng.randrange(1, len(places) + 1)):
+            strings[pl] = rng.choice(NONASCII_TEXT)
+    dest = rng.choice(["bytesio", "bytesio", "fileobj"] + (["path"] if route != "writer" else []))
+    cs = rng.choice(CS_CHOICES)
+    closefd = rng.random() < (0.9 if dest == "path" else 0.5)    # a file name with closefd=False is refused by open() itself
+    return {"case": "params", "route": route, "dest": dest, "version": version, "format": fmt,
+            "extra_dims": rng.choice([0, 0, 1, 2]), "points": rng.choice([0, 1, cs, cs + 1]), "chunk_size": cs,
+            "appended": rng.choice([0, 1, cs + 1]), "encoding_errors": rng.choice(ENC_ERRORS), "closefd": closefd,
+            "backend": rng.choice([b[0] for b in backend_choices()]), "backend_as_iterator": rng.random() < 0.15,
+            "strings": strings, "as_bytes": rng.random() < (0.7 if route == "append" else 0.25), "evlr_plain": version == "1.4" and rng.random() < 0.3,
+            "data_seed": rng.randrange(1 << 30)}
+
+
+def build_param_data(pd):
+    import laspy
+    h = laspy.LasHeader(version=pd["version"], point_format=int(pd["format"]))
+    rng = random.Random(int(pd["data_seed"]))
+    if pd["extra_dims"]:
+        lasio.add_extra_dims(rng, h, int(pd["extra_dims"]))
+    conv = (lambda t: t.encode("latin-1", "replace")) if pd["as_bytes"] else (lambda t: t)
+    st = pd["strings"]
+    if "system_identifier" in st:
+        h.system_identifier = conv(st["system_identifier"])
+    if "generating_software" in st:
+        h.generating_software = conv(st["generating_software"])
+    h.vlrs.append(laspy.VLR("Uc14", 7, "plain", b"\x01\x02"))
+    if "vlr" in st:
+        h.vlrs.append(laspy.VLR("Uc14", 8, conv(st["vlr"]), b"\x05"))
+    evl = []
+    if "evlr" in st:
+        evl.append(laspy.VLR("Ec14", 9, conv(st["evlr"]), b"\x03\x04"))
+    if pd.get("evlr_plain"):
+        evl.append(laspy.VLR("Ec14", 10, "plain evlr", b"\x06"))
+    pts = lasio.rand_points(rng, h, int(pd["points"]))
+    more = lasio.rand_points(rng, h, int(pd["appended"]))
+    return h, evl, pts, more
+
+
+def run_param_case(pd, compress, tmp):
+    """one session of the described kind on a compressed or a plain destination: at which stage it failed (and how), whether
+    the destination was left closed, the bytes produced, what they read back as"""
+    import laspy
+    fake_lazrs.CHUNK_SIZE = int(pd["chunk_size"])
+    h, evl, pts, more = build_param_data(pd)
+    bk = {b[0]: b[1] for b in backend_choices()}[pd["backend"]]
+    if pd.get("backend_as_iterator") and isinstance(bk, (list, tuple)):
+        bk = iter(list(bk))
+    errors, closefd, route, kind = pd["encoding_errors"], bool(pd["closefd"]), pd["route"], pd["dest"]
+    out = {"stage": "setup", "outcome": "ok", "closed": None, "raw": None}
+    path = os.path.join(tmp, ("c" if compress else "u") + ("f.laz" if compress else "f.las"))
+    vl = laspy.vlrs.vlrlist.VLRList
+    dest = None
+    try:
+        if route == "append":
+            # the file appended to: the same data, strings written leniently so that it exists in both forms
+            bio = io.BytesIO()
+            w = laspy.LasWriter(bio, h, do_compress=compress, closefd=False, encoding_errors="replace")
+            if len(pts):
+                w.write_points(pts)
+            if evl:
+                w.write_evlrs(vl(list(evl)))
+            w.close()
+            base = bio.getvalue()
+        if kind == "bytesio":
+            dest = lasio.KeepStream(base if route == "append" else b"")
+        else:
+            if route == "append":
+                with open(path, "wb") as f:
+                    f.write(base)
+            dest = path if kind == "path" else open(path, "rb+" if route == "append" else "wb+")
+        # a path decides by its extension; everything else is told
+        dc = None if kind == "path" else compress
+        out["stage"] = "open"
+        if route == "open":
+            s = laspy.open(dest, mode="w", header=h, do_compress=dc, closefd=closefd, encoding_errors=errors, **kw(bk))
+        elif route == "writer":
+            s = laspy.LasWriter(dest, h, do_compress=dc, closefd=closefd, encoding_errors=errors, **kw(bk))
+        elif route == "append":
+            s = laspy.open(dest, mode="a", closefd=closefd, encoding_errors=errors, **(kw(bk) if compress else {}))
+        else:
+            s = None
+            las = laspy.LasData(h)
+            las.points = pts
+            if evl:
+                las.evlrs = vl(list(evl))
+            out["stage"] = "write"
+            if kind == "path":
+                las.write(dest, **kw(bk))
+            else:
+                las.write(dest, do_compress=dc, **kw(bk))
+        if s is not None:
+            try:
+                out["stage"] = "points"
+                if route == "append":
+                    if len(more):
+                        s.append_points(more)
+                else:
+                    if len(pts):
+                        s.write_points(pts)
+                    if evl:
+                        out["stage"] = "evlrs"
+                        s.write_evlrs(vl(list(evl)))
+                out["stage"] = "close"
+            finally:
+                s.close()
+        out["stage"] = "done"
+    except Exception as ex:  # noqa
+        out["outcome"] = "raised " + type(ex).__name__
+        out["message"] = str(ex)[:120]
+    try:
+        if kind == "bytesio":
+            out["closed"] = bool(dest.closed) if dest is not None else None
+            out["raw"] = dest.getvalue() if dest is not None else None
+        else:
+            if kind == "fileobj" and dest is not None:
+                out["closed"] = bool(dest.closed)
+                if not dest.closed:
+                    dest.close()
+            if os.path.exists(path):
+                with open(path, "rb") as f:
+                    out["raw"] = f.read()
+    except Exception as ex:  # noqa
+        out["raw_error"] = f"{type(ex).__name__}: {ex}"
+    out["read"] = None
+    if out["outcome"] == "ok" and out["raw"] is not None:
+        try:
+            out["read"] = read_summary(laspy.read(io.BytesIO(out["raw"])))
+        except Exception as ex:  # noqa
+            out["read"] = {"unreadable": f"{type(ex).__name__}: {ex}"}
+    return out
+
+
+def param_verdict(pd, tmp):
+    """(kind, observed) when the compressed destination does not behave like the uncompressed one, else None; plus both runs"""
+    z, u = run_param_case(pd, True, tmp), run_param_case(pd, False, tmp)
+    what = "encoding_errors=" + repr(pd["encoding_errors"]) if pd["strings"] else "ASCII strings"
+    if (z["outcome"], z["stage"]) != (u["outcome"], u["stage"]):
+        return (f"{pd['route']} session: the compressed destination fails where the uncompressed one does not (or the reverse)",
+                f"compressed: {z['outcome']} at stage {z['stage']} ({z.get('message', '')}); uncompressed: {u['outcome']} at stage "
+                f"{u['stage']} ({u.get('message', '')}); {what}"), z, u
+    if z["closed"] != u["closed"]:
+        return (f"{pd['route']} session: closefd treated differently for the compressed destination",
+                f"destination closed afterwards: compressed {z['closed']}, uncompressed {u['closed']} (closefd={pd['closefd']}, outcome {z['outcome']})"), z, u
+    if z["read"] is not None and u["read"] is not None:
+        if "unreadable" in z["read"] or "unreadable" in u["read"]:
+            if ("unreadable" in z["read"]) != ("unreadable" in u["read"]):
+                return (f"{pd['route']} session: the file written cannot be read back",
+                        f"compressed: {str(z['read'])[:100]}; uncompressed: {str(u['read'])[:100]}"), z, u
+        else:
+            dk = diff_keys(u["read"], z["read"])
+            if dk:
+                return (f"{pd['route']} session: read-back differs between compressed and uncompressed: " + ",".join(dk),
+                        str({k: (str(u['read'][k])[:60], str(z['read'][k])[:60]) for k in dk[:3]}) + "; " + what), z, u
+    return None, z, u
+
+
+def read_params_run(raw, backend, closefd, read_evlrs, route, seekable=True):
+    """optional parameters of the reading entry points: what the source is left like, what the reader shows before and
+    after the points were read, what is returned"""
+    import laspy
+    src = io.BytesIO(raw) if seekable else NonSeekable(raw)
+    out = {}
+    try:
+        if route == "read":
+            las = laspy.read(src, closefd=closefd, **kw(backend))
+        elif route == "LasReader":
+            r = laspy.LasReader(src, closefd=closefd, read_evlrs=read_evlrs, **kw(backend))
+            out["evlrs_at_open"] = None if r.evlrs is None else [lasio.vlr_tuple(v) for v in r.evlrs]
+            las = r.read()
+            out["evlrs_after_read"] = None if r.evlrs is None else [lasio.vlr_tuple(v) for v in r.evlrs]
+            r.close()
+        else:
+            with laspy.open(src, closefd=closefd, read_evlrs=read_evlrs, **kw(backend)) as r:
+                out["evlrs_at_open"] = None if r.evlrs is None else [lasio.vlr_tuple(v) for v in r.evlrs]
+                out["count"] = int(r.header.point_count)
+                las = r.read()
+                out["evlrs_after_read"] = None if r.evlrs is None else [lasio.vlr_tuple(v) for v in r.evlrs]
+        out["summary"] = read_summary(las)
+        out["outcome"] = "ok"
+    except Exception as ex:  # noqa
+        out["outcome"] = "raised " + type(ex).__name__ + ": " + str(ex)[:80]
+    out["source_closed"] = bool(src.closed) if seekable else None
+    return out
+
+
+_PARAMS = None
+
+
+def param_cases(ctx):
+    global _PARAMS
+    if _PARAMS is None:
+        _PARAMS = []
+        tmp = tempfile.mkdtemp(prefix="verif_c14_p_", dir="/var/tmp")
+        try:
+            for _ in range(ctx.n(160, 1500)):
+                pd = gen_param_case(ctx.rng, ctx.thorough())
+                try:
+                    verdict, z, u = param_verdict(pd, tmp)
+                except Exception as ex:  # noqa
+                    verdict, z, u = ("parameter session could not be run", f"{type(ex).__name__}: {ex}"), None, None
+                _PARAMS.append({"pd": pd, "verdict": verdict, "z": z, "u": u})
+        finally:
+            shutil.rmtree(tmp, ignore_errors=True)
+    return _PARAMS
+
+
+
+# ---------------------------------------------------------------------------------
 # correspondence
 # ---------------------------------------------------------------------------------
 def correspond(ctx):
@@ -660,6 +1248,17 @@ def correspond(ctx):
         "read_points / seek / partial and full chunk_iterator / read() / caller overwriting a kept piece on the public reader of the "
         "compressed and the uncompressed file (seekable and non-seekable), every piece and LasData kept until after close and compared "
         "with its value at hand-out, with the slice of the records and with the other file. "
+        "Selective reads: files of formats 6-10 (and some 0-5) with 0-3 extra dimensions (names clashing with standard dimensions of "
+        "other formats included), read with the selection omitted / None / all() / base() / all().skip_x() / base().decompress_x() / "
+        "hand-made ORs / DecompressionSelection(v) through laspy.read, laspy.open + read / read_points / chunk_iterator / seek, "
+        "LasReader, seekable and not, every backend form - the stand-in backend zeroes what it is not asked for, as lazrs does; the "
+        "model masks the records with to_lazrs of the value passed (Model/LazSelect.v), the oracle zeroes the dimensions by name from "
+        "what the form MEANS; the Flag class is swept (all() = OR of the members, defaults of the entry points, skip_/decompress_/"
+        "is_set_ of every member, to_lazrs of every member and of sampled values). Parameter sessions: laspy.open('w') / LasWriter / "
+        "LasData.write / laspy.open('a') x BytesIO / file object / path x encoding_errors in {strict, ignore, replace, "
+        "backslashreplace, xmlcharrefreplace} x header strings, VLR and EVLR descriptions that are not ASCII (str and bytes) x closefd "
+        "x laz_backend as member / list / tuple / iterator, compressed against uncompressed: same stage and kind of failure, same "
+        "closed state of the destination, same read-back. "
         "non-trivial = compressed data with at least one point or a decision/bit/history case; distinct by inputs")
     dis = []
     cmds, tags = [], []
@@ -737,6 +1336,42 @@ def correspond(ctx):
             d["appended_las"] = append_session(d["las"], h, chunks, None, d["app_shapes"])
         except Exception as ex:  # noqa
             d["appended_las"] = ex
+    # (8) the Flag class: values, defaults, to_lazrs
+    q("selinfo", ("selinfo", 0))
+    full = full_selection()
+    sweep = sorted(set([0, full] + list(member_bits().values()) + [full & ~b for b in member_bits().values()]
+                       + ([v for v in range(full + 1)] if ctx.thorough() else [rng.randrange(full + 1) for _ in range(300)])))
+    q("tolazrs " + " ".join(str(v) for v in sweep), ("tolazrs", 0))
+    # (9) selective reads: the model applies to_lazrs of the value the implementation was handed to the records of the file
+    seld = sel_datasets(ctx)
+    selq = {}
+    for i, e in enumerate(seld):
+        if "error" in e:
+            continue
+        q(f"chunk {e['dd']['chunk_size']}", ("nop", i))
+        for j, c in enumerate(e["cases"]):
+            tok = "N" if c["obj"] is None or c["obj"] is NOTHING else str(int(c["obj"]))
+            key = (i, tok, c["seekable"], c["btok"])
+            if key not in selq:
+                selq[key] = []
+                q(f"{'lazread_sel' if c['seekable'] else 'lazread_ns_sel'} {tok} {c['btok']} {common.hexb(e['laz'])}", ("selread", key))
+            selq[key].append(j)
+    # (10) compressed files written with encoding_errors / non-ASCII strings: the file of the header as it was encoded
+    pcs = param_cases(ctx)
+    for i, pc_ in enumerate(pcs):
+        pd, z, u = pc_["pd"], pc_["z"], pc_["u"]
+        if pc_["verdict"] or not z or pd["route"] not in ("open", "writer") or z["outcome"] != "ok" or not z["raw"] or not u["raw"]:
+            continue
+        try:
+            ul = laspy.read(io.BytesIO(u["raw"]))
+            hu = ul.header
+            ha = lasio.assoc_tok(lasio.header_assoc(hu, compressed=False))
+            et = lasio.vlrs_tok(ul.evlrs) if ul.evlrs else "-"
+            q(f"chunk {pd['chunk_size']}", ("nop", i))
+            q(f"lazfile {ha} {lasio.vlrs_tok(hu.vlrs)} {hu.point_format.id} {hu.point_format.size} "
+              f"{common.hexb(lasio.rec_bytes(ul.points))} {et}", ("pfile", i))
+        except Exception as ex:  # noqa
+            ctx.notes.append(f"parameter session {i}: the uncompressed file could not be turned into a model input: {type(ex).__name__}: {ex}")
     outs = common.run_model(cmds, name="c14")
 
     def bad(kind, inp, model, impl):
@@ -771,6 +1406,59 @@ def correspond(ctx):
                 k = next((j for j, (a, b) in enumerate(zip(mo.split(" "), hh["states"])) if a != b), 0)
                 bad("LasZip record discipline", {"history": hh["desc"], "step": k, "init_vlrs": hh["init"][:60]},
                     summarize_state(mo.split(" ")[k] if k < len(mo.split(" ")) else "-"), summarize_state(hh["states"][k] if k < len(hh["states"]) else "-"))
+        elif tag == "selinfo":
+            ctx.case(("selinfo",), nontrivial=True)
+            ctx.count("flag class: values")
+            dsc = DS()
+            try:
+                dfl = [int(inspect.signature(fn).parameters["decompression_selection"].default)
+                       for fn in (laspy.open, laspy.read, laspy.LasReader.__init__)]
+                impl = f"{int(dsc.all())} {full} {len(dsc.__members__)} {int(dsc.all().to_lazrs().value)} T " + ",".join(map(str, dfl))
+            except Exception as ex:  # noqa
+                impl = f"raised {type(ex).__name__}: {ex}"
+            if mo != impl:
+                bad("values of the DecompressionSelection class (all, OR of the members, member count, all().to_lazrs(), every layer "
+                    "reached, defaults of open / read / LasReader)", {"members": member_bits()}, mo, impl)
+        elif tag == "tolazrs":
+            dsc = DS()
+            mv = mo.split(",")
+            for v, m in zip(sweep, mv):
+                ctx.case(("tolazrs", v), nontrivial=True)
+                try:
+                    iv = str(int(dsc(v).to_lazrs().value))
+                except Exception as ex:  # noqa
+                    iv = "raised " + type(ex).__name__
+                if m != iv:
+                    bad("to_lazrs()", {"selection_value": v}, m, iv)
+                    break
+            ctx.count("flag class: to_lazrs sweep", len(sweep))
+        elif tag == "selread":
+            e = seld[i[0]]
+            m = mo.split(" ")
+            for j in selq[i]:
+                c = e["cases"][j]
+                ctx.case(("selread", e["laz"], c["form"], c["route"], c["seekable"], c["backend"], c["pos"]), nontrivial=e["dd"]["format"] >= 6,
+                         sample=sel_case_input(e["dd"], c) if (i[0] % 12 == 0 and j == 0) else None)
+                ctx.count("selective read:" + c["form_class"] + ":" + ("layered" if e["dd"]["format"] >= 6 else "formats 0-5"))
+                ctx.count("selective read route:" + c["route"] + ("" if c["seekable"] else " (non-seekable)"))
+                got = c["got"]
+                if isinstance(got, Exception):
+                    if m[0] == "ok":
+                        bad("selective read of a compressed file", sel_case_input(e["dd"], c), "ok", f"raised {type(got).__name__}: {got}")
+                elif m[0] != "ok":
+                    bad("selective read of a compressed file", sel_case_input(e["dd"], c), mo[:80], f"{len(got)} bytes")
+                elif common.unhex(m[7]) != got:
+                    mb = common.unhex(m[7])
+                    k = next((x for x, (a, b) in enumerate(zip(mb, got)) if a != b), min(len(mb), len(got)))
+                    ps = e["h"].point_format.size
+                    bad("selective read of a compressed file: records differ", sel_case_input(e["dd"], c),
+                        f"record {k // ps} byte {k % ps}: {mb[k] if k < len(mb) else None}", f"{got[k] if k < len(got) else None}")
+        elif tag == "pfile":
+            pc_ = pcs[i]
+            ctx.case(("pfile", repr(pc_["pd"])), nontrivial=bool(pc_["pd"]["strings"]))
+            ctx.count("compressed file of an encoded header:" + pc_["pd"]["encoding_errors"])
+            if mo != "ok " + common.hexb(pc_["z"]["raw"]):
+                bad("compressed file bytes (written with encoding_errors)", pc_["pd"], where_differs(mo, pc_["z"]["raw"]), f"{len(pc_['z']['raw'])} bytes")
         else:
             d = ds[i]
             desc = d["desc"]
@@ -949,6 +1637,9 @@ def search(ctx, seeds):
             seen.add(kind)
             failing.append({"kind": kind, "input": inp, "observed": str(why)[:300]})
 
+    # (e) the Flag class DecompressionSelection itself (first: the most specific diagnosis of anything a selection breaks)
+    for kind, inp, why in flag_class_problems():
+        add(kind, {"case": "flag-class", **inp}, why)
     # (a) the decision rule, the compressed bit, exactly one LasZip record
     for canon, cmd, obs, nlz, suffix, is_path in decisions(ctx):
         route, kind, nm, dc, bname = canon
@@ -997,8 +1688,83 @@ def search(ctx, seeds):
                 # allowed only while the point source of a non-empty compressed file does not exist yet
                 raw = hh.get("last")
         # user's own records are never lost
-    # (c) LAZ vs LAS of the same data
+    # (f) selective reads: what the form means, by dimension name, against the uncompressed file of the same data
+    for e in sel_datasets(ctx):
+        dd = e["dd"]
+        if "error" in e:
+            add("selective data set could not be written", dd, e["error"])
+            continue
+        try:
+            ref = laspy.read(io.BytesIO(e["las"])).points
+        except Exception as ex:  # noqa
+            add("selective data set: the uncompressed file cannot be read", dd, f"{type(ex).__name__}: {ex}")
+            continue
+        whole = lasio.rec_bytes(ref)
+        for c in e["cases"]:
+            inp = sel_case_input(dd, c)
+            got, plain = c["got"], c["plain"]
+            cls = c["form_class"]
+            if isinstance(plain, Exception) or plain != whole:
+                add(f"uncompressed read with a decompression selection ({cls})", inp,
+                    f"{type(plain).__name__}: {plain}" if isinstance(plain, Exception) else "differs from the plain read of the same file")
+            if isinstance(got, Exception):
+                if not isinstance(plain, Exception):
+                    add(f"compressed read with a decompression selection failed ({cls})", inp, f"{type(got).__name__}: {got}")
+                continue
+            exp = expected_selected(ref, c["means"])
+            if got != exp:
+                ps = ref.point_format.size
+                k = next((x for x, (a, b) in enumerate(zip(got, exp)) if a != b), min(len(got), len(exp)))
+                names = list(ref.array.dtype.names)
+                offs = {nm: ref.array.dtype.fields[nm][1] for nm in names}
+                dim = max((nm for nm in names if offs[nm] <= k % ps), key=lambda nm: offs[nm]) if len(got) == len(exp) else "?"
+                which = ("what the compressed file returns differs from the uncompressed file of the same data" if c["means"] == full_selection()
+                         else "what the compressed file returns is not the uncompressed data with the unselected dimensions zeroed")
+                add(f"decompression selection ({cls}): {which}", inp,
+                    f"{len(got)} bytes vs {len(exp)}; first difference in record {k // ps}, byte {k % ps} (dimension {dim!r}): "
+                    f"{got[k] if k < len(got) else None} instead of {exp[k] if k < len(exp) else None}")
+            elif c["handed"] != [expected_lazrs_value(c["means"])]:
+                add(f"decompression selection ({cls}): the backend is not handed what the selection means", inp,
+                    f"decompressors were constructed with {[hex(v) for v in c['handed']]}, the selection means {expected_lazrs_value(c['means']):#x}")
+    # (g) optional parameters of the writing entry points
+    for pc_ in param_cases(ctx):
+        pd = pc_["pd"]
+        ctx.case(("params", repr(pd)), nontrivial=True, sample=pd if len(ctx.samples) < 5 and pd["strings"] and pd["route"] == "open" else None)
+        ctx.count("parameter session:" + pd["route"] + ":" + pd["dest"])
+        ctx.count("parameter session encoding_errors:" + pd["encoding_errors"] + (":non-ascii" if pd["strings"] else ""))
+        if pc_["z"]:
+            ctx.count("parameter session outcome:" + pc_["z"]["outcome"] + "@" + pc_["z"]["stage"])
+        if pc_["verdict"]:
+            add(pc_["verdict"][0], pd, pc_["verdict"][1])
+    # (h) optional parameters of the reading entry points (closefd, read_evlrs, the forms of laz_backend), compressed
+    #     against uncompressed source of the same data
     rng = ctx.rng
+    for d in datasets(ctx):
+        if "error" in d:
+            continue
+        fake_lazrs.CHUNK_SIZE = d["cs"]
+        desc = d["desc"]
+        for _ in range(2):
+            closefd, read_evlrs = rng.random() < 0.5, rng.random() < 0.5
+            route = rng.choice(["read", "open", "open", "LasReader"])
+            seekable = rng.random() < 0.8
+            if not seekable and desc["points"] == 0 and desc["evlrs"] > 0:
+                continue      # the open known finding
+            bn, bsel, tok = rng.choice([b for b in backend_choices() if seekable or "S" in b[2]])
+            rin = {**desc, "case": "read-params", "route": route, "closefd": closefd, "read_evlrs": read_evlrs, "read_backend": bn,
+                   "seekable_source": seekable}
+            ctx.case(("read-params", d["laz_chunked"], route, closefd, read_evlrs, bn, seekable), nontrivial=desc["points"] > 0)
+            ctx.count(f"reader parameters:{route}:closefd={closefd}:read_evlrs={read_evlrs if route != 'read' else '-'}")
+            za = read_params_run(d["laz_chunked"], bsel, closefd, read_evlrs, route, seekable)
+            ua = read_params_run(d["las"], bsel, closefd, read_evlrs, route, seekable)
+            dk = [k for k in ua if k != "summary" and ua.get(k) != za.get(k)]
+            if "summary" in ua and "summary" in za:
+                dk += ["summary." + k for k in diff_keys(ua["summary"], za["summary"])]
+            if dk:
+                add("reader parameters (closefd / read_evlrs / laz_backend): compressed source behaves differently: " + ",".join(dk[:4]), rin,
+                    {k: (str(ua.get(k))[:70], str(za.get(k))[:70]) for k in dk[:3] if not k.startswith("summary.")}
+                    or show_diff(ua["summary"], za["summary"], [k[8:] for k in dk]))
+    # (c) LAZ vs LAS of the same data
     for d in datasets(ctx):
         desc = d["desc"]
         if "error" in d:
@@ -1034,7 +1800,7 @@ def search(ctx, seeds):
                 continue
             dk = diff_keys(ref, got)
             if dk:
-                add("compressed read differs from uncompressed: " + ",".join(dk), {**desc, "read_backend": bn}, {k: (str(ref[k])[:60], str(got[k])[:60]) for k in dk[:3]})
+                add("compressed read differs from uncompressed: " + ",".join(dk), {**desc, "read_backend": bn}, show_diff(ref, got, dk))
             if any(is_lz(v) for v in got["vlrs"]):
                 add("LasZip record shown after reading", desc, "laspy.read(...).vlrs holds the LasZip record")
         # non-seekable: a list whose first entry cannot construct must fall back; EVLRs come from behind the chunk table
@@ -1051,7 +1817,7 @@ def search(ctx, seeds):
                 continue
             dk = diff_keys(ref, got)
             if dk:
-                add("non-seekable compressed read differs: " + ",".join(dk), {**desc, "read_backend": bn}, {k: (str(ref[k])[:60], str(got[k])[:60]) for k in dk[:3]})
+                add("non-seekable compressed read differs: " + ",".join(dk), {**desc, "read_backend": bn}, show_diff(ref, got, dk))
         # chunked reading and seek-and-read through the public reader: same history on both files
         n = desc["points"]
         ops = gen_ops(rng, n, d["cs"]) + [("R", -1)]
@@ -1226,9 +1992,72 @@ def search(ctx, seeds):
     return failing[:10]
 
 
+def replay_selection(inp):
+    import laspy
+    dd = {k: inp[k] for k in ("chunk_size", "version", "format", "extra_types", "extra_names", "points", "pattern", "data_seed")}
+    h, pts, las_raw, laz = build_sel_data(dd)
+    ds, bits, full = DS(), member_bits(), full_selection()
+    form = inp["selection"]
+    if form == "default":
+        obj = NOTHING
+    elif form == "None":
+        obj = None
+    elif form.startswith(("all()", "base()")) and "|" not in form:
+        # a method chain printed by selection_forms: all() / base() followed by skip_<m>() / decompress_<m>() calls
+        parts = form.split(".")
+        obj = ds.all() if parts[0] == "all()" else ds.base()
+        for part in parts[1:]:
+            name = part[:-2]
+            if not part.endswith("()") or not name.startswith(("skip_", "decompress_")) or name.split("_", 1)[1].upper() not in bits:
+                raise ValueError(f"replay: unknown selection form {form!r}")
+            obj = getattr(obj, name)()
+    elif form == "every member OR-ed":
+        obj = ds(0)
+        for nm in bits:
+            obj = obj | ds[nm]
+    elif form.startswith("base()|"):
+        obj = ds.base()
+        for nm in form.split("|")[1:]:
+            obj = obj | ds[nm]
+    else:
+        obj = ds(int(inp["selection_value_passed"]))
+    bk = {b[0]: b[1] for b in backend_choices()}[inp["backend"]]
+    del SEL_LOG[:]
+    got = read_route(laz, inp["route"], obj, inp["seekable_source"], bk, dd["chunk_size"], dd["points"], inp.get("pos"))
+    exp = expected_selected(laspy.read(io.BytesIO(las_raw)).points, int(inp["selection_means"]))
+    print(f"replay: a fresh format-{dd['format']} file with extra dimensions {dd['extra_types']} ({dd['points']} points), written as LAS and LAZ;")
+    print(f"  read through {inp['route']} with the selection {form} (object passed: {obj!r}, means {int(inp['selection_means']):#x})")
+    print(f"  decompressors were handed {[hex(v) for v in SEL_LOG]}; the selection means {expected_lazrs_value(int(inp['selection_means'])):#x} on the backend's side")
+    print(f"  records equal to the uncompressed data with the unselected dimensions zeroed: {got == exp}")
+    return got != exp or SEL_LOG != [expected_lazrs_value(int(inp["selection_means"]))]
+
+
 def replay(ctx, data):
     fi = data.get("failing_input", data)
     inp = fi.get("input", {}) if isinstance(fi, dict) else {}
+    if isinstance(inp, dict) and inp.get("case") == "selection":
+        bad = replay_selection(inp)
+        print("REPRODUCED" if bad else "not reproduced on this source tree")
+        return 1 if bad else 0
+    if isinstance(inp, dict) and inp.get("case") == "params":
+        tmp = tempfile.mkdtemp(prefix="verif_c14_r_", dir="/var/tmp")
+        try:
+            verdict, z, u = param_verdict(inp, tmp)
+        finally:
+            shutil.rmtree(tmp, ignore_errors=True)
+        print(f"replay: {inp['route']} session to a {inp['dest']} destination, encoding_errors={inp['encoding_errors']!r}, closefd={inp['closefd']}, "
+              f"backend {inp['backend']}, strings {inp['strings']} ({'bytes' if inp['as_bytes'] else 'str'})")
+        for side, r in (("compressed", z), ("uncompressed", u)):
+            print(f"  {side}: {r['outcome']} at stage {r['stage']} {r.get('message', '')}; destination closed: {r['closed']}")
+        print("  verdict:", verdict)
+        print("REPRODUCED" if verdict else "not reproduced on this source tree")
+        return 1 if verdict else 0
+    if isinstance(inp, dict) and inp.get("case") == "flag-class":
+        probs = flag_class_problems()
+        for kind, _, why in probs:
+            print(f"  {kind}: {why}")
+        print("REPRODUCED" if probs else "not reproduced on this source tree")
+        return 1 if probs else 0
     if isinstance(inp, dict) and "ops" in inp and "seekable_source" in inp:
         # a kept-pieces history: it does not depend on the particular records, a file of the described size is enough
         import laspy
